@@ -43,7 +43,7 @@ use dmntk_feel::{
 };
 use std::borrow::Borrow;
 use std::cmp::Ordering;
-use std::collections::{BTreeMap, HashSet};
+use std::collections::BTreeMap;
 use std::convert::TryFrom;
 use std::ops::Deref;
 use std::str::FromStr;
@@ -1899,29 +1899,11 @@ fn eval_in_list(left: &Value, items: &[Value]) -> Value {
   VALUE_FALSE
 }
 
-/// Checks if all elements from `list` are present in `items`.
+/// Checks if `list` is equal to one of `items`.
 fn eval_in_list_in_list(list: &Value, items: &[Value]) -> Value {
-  if let Value::List(lhs) = list {
-    for item in items {
-      if let Value::List(rhs) = item {
-        let mut available: HashSet<usize> = (0..rhs.as_vec().len()).collect();
-        for l in lhs.as_vec() {
-          let mut found = false;
-          for (index, r) in rhs.as_vec().iter().enumerate() {
-            if available.contains(&index) {
-              if let Value::Boolean(true) = eval_in_equal(l, r) {
-                available.remove(&index);
-                found = true;
-                break;
-              }
-            }
-          }
-          if !found {
-            return VALUE_FALSE;
-          }
-        }
-        return VALUE_TRUE;
-      }
+  for item in items {
+    if let Value::Boolean(true) = eval_in_equal(list, item) {
+      return VALUE_TRUE;
     }
   }
   VALUE_FALSE
